@@ -22,8 +22,6 @@ FINDINGS = [
   "a client __typename/id inside one type-conditioned fragment below an interface field makes the helper __typename/id of the other types leak (or the requested one get scrubbed)"),
  ("C01", "interfaces,abstract-cond-frag,inline-fragments,named-fragments", "C01/data-unexpected-key", "abstract-cond-frag",
   "a fragment whose type condition is the interface itself leaks helper id/__typename (scrub fields are registered under the interface name)"),
- ("C12", "frag-twice,named-fragments", "C12/answer-differs-list-length", "frag-twice",
-  "one named fragment spread twice creates two identical child steps; scalar lists fetched by them are appended twice"),
  ("C01", "frag-directives,directives,inline-fragments", "C01/data-unexpected-key", "frag-directives",
   "@skip/@include on an inline fragment are dropped when the fragment is flattened: excluded fields are returned"),
  ("C02", "var-named-id,variables", "C02/variable-value-lost", "var-named-id",
